@@ -253,6 +253,9 @@ bool provider(const std::string &prop, const std::string &tier, const std::strin
         { Spec s; s.check = false; s.initial = {0, 0, 0}; s.threads = T{{U(1)}, {U(0)}, {N(0)}}; add(suite, s, b, flavour); }
         { Spec s; s.check = false; s.initial = {0, 0}; s.threads = T{{S(0), U(0)}, {U(1), S(0)}}; add(suite, s, b, flavour); }
         { Spec s; s.check = false; s.initial = {0}; s.thrower = 2; s.threads = T{{Tn(3), U(0)}, {N(1)}, {Tn(3)}}; add(suite, s, b, flavour); }
+        // two readers and a writer on the same subject: a writer that gets in while one of the readers is still delivering
+        { Spec s; s.check = false; s.initial = {0, 1}; s.threads = T{{N(1)}, {N(1)}, {S(0)}}; add(suite, s, b, flavour); }
+        { Spec s; s.check = false; s.initial = {0}; s.threads = T{{N(0)}, {E(0), N(0)}, {U(0)}}; add(suite, s, b, flavour); }
         // readers that run concurrently under the shared lock and use the SAME const key object (wildcard and regex levels)
         { Spec s; s.check = false; s.initial = {0, 1}; s.threads = T{{N(1)}, {N(1)}, {E(1)}}; add(suite, s, b, flavour); }
         { Spec s; s.check = false; s.initial = {1, 2}; s.threads = T{{N(4)}, {E(4)}, {N(4), D()}}; add(suite, s, b, flavour); }
@@ -276,6 +279,7 @@ bool provider(const std::string &prop, const std::string &tier, const std::strin
     // scheduling point inside every callback; the other thread changes both keys in program order
     { Spec s; s.initial = {0}; s.threads = T{{S(0), S(1)}, {N(1)}}; add(suite, s, 3, flavour); }
     { Spec s; s.initial = {0, 1}; s.threads = T{{U(0), U(1)}, {N(1)}}; add(suite, s, 3, flavour); }
+    { Spec s; s.initial = {0, 1}; s.threads = T{{S(0), S(1)}, {N(1)}}; add(suite, s, 3, flavour); }      // both keys exist already: a subscribe that adds to an existing subject must still wait for the delivery
     { Spec s; s.initial = {0, 1}; s.threads = T{{U(0), H(2), E(0)}, {N(2)}}; add(suite, s, 3, flavour); }
     { Spec s; s.initial = {0, 0}; s.threads = T{{S(0), U(1)}, {N(0)}, {N(1)}}; add(suite, s, 2, flavour); }
     { Spec s; s.initial = {0}; s.dead = {1, 2}; s.threads = T{{H(2), S(1)}, {N(1), E(4)}, {D()}}; add(suite, s, 2, flavour); }
